@@ -9,7 +9,7 @@
 From Coq Require Import List NArith ZArith Bool String Ascii.
 From ApiFu Require Import Base.Sexp Pipe.PipelineModel Pipe.PipelineCheck Pipe.Convert Pipe.Compose Pipe.SchemaAgree Pipe.CostCompose Pipe.SubscribeCompose.
 From ApiFu Require Val.Values Val.CoerceSpec.
-From ApiFu Require Syn.Ast Syn.ParserModel Syn.FrontEnd Vld.Ast Vld.Inspect Vld.TypeInfoModel Vld.ValidatorModel Vld.Decode Vld.ValidatorCheck ExeA.ArgData ExeA.ArgModel ExeA.ArgHyps ExeA.ArgDecode ExeA.ArgCheck.
+From ApiFu Require Syn.Ast Syn.ParserModel Syn.FrontEnd Vld.Ast Vld.Inspect Vld.TypeInfoModel Vld.ValidatorModel Vld.Decode Vld.ValidatorCheck Vld.Hyps ExeA.ArgArgs ExeA.ArgData ExeA.ArgModel ExeA.ArgHyps ExeA.ArgDecode ExeA.ArgCheck.
 Import ListNotations.
 Open Scope string_scope.
 
@@ -47,7 +47,6 @@ Definition of_presult (r : presult) : sexp :=
   | PSyntax e es => tag "syntax" (map of_vpos (syn_locs (e :: es)))
   | PInvalid e es => tag "invalid" (map (fun x => SL (map of_vpos (Vld.Ast.e_locs x))) (e :: es))
   | PExecuted d errs => tag "executed" [ExeA.ArgCheck.of_run (ExeA.ArgModel.Done d errs)]
-  | PUnevaluable x => tag "unevaluable" [ExeA.ArgCheck.of_run x]
   | PContractBroken CPositions => tag "contract-broken" [SSym "positions"]
   | PContractBroken CDocOk => tag "contract-broken" [SSym "doc-ok"]
   | PPanic _ => tag "panic" []
@@ -86,6 +85,36 @@ Definition agrees_async (m : ExeA.ArgModel.run_result) (o : ExeA.ArgDecode.obser
   | _, _ => false
   end.
 
+(** the request has a @skip/@include whose condition has no boolean value among the coerced
+    variables (a nullable variable with a default, given null): covered by C01's dirs-free theorems;
+    counted as a class *)
+Definition request_unevaluable (ES : ExeA.ArgData.schema) (bs opname : bytes)
+           (raw : list (ExeA.ArgData.name * Val.Values.jval)) : bool :=
+  match Syn.FrontEnd.parse_document_bytes bs with
+  | Syn.ParserModel.Out (Some d) [] =>
+      match ExeA.ArgModel.get_operation (exe_of_syn d) opname with
+      | ExeA.ArgModel.GOp o =>
+          match ExeA.ArgModel.coerce_request_vars ES o raw with
+          | Val.Values.Ok vv =>
+              negb (ExeA.ArgHyps.dirs_evaluable (ExeA.ArgData.doc_of (exe_of_syn d) o vv) (ExeA.ArgArgs.env_of_vars vv))
+          | _ => false
+          end
+      | _ => false
+      end
+  | _ => false
+  end.
+
+(** the decidable hypotheses of C04's theorems about the schema (as C04's check evaluates them) and
+    about the positions of the parsed document *)
+Definition vschema_hypotheses (VS : Vld.Ast.schema) : bool :=
+  Vld.Hyps.schema_ok VS && Vld.Hyps.schema_args_ok VS && Vld.Hyps.schema_impls_ok VS
+  && Vld.Hyps.schema_defaults_ok VS && Vld.Hyps.schema_ifaces_ok VS.
+Definition parsed_positions_ok (bs : bytes) : bool :=
+  match Syn.FrontEnd.parse_document_bytes bs with
+  | Syn.ParserModel.Out (Some d) [] => Vld.Hyps.doc_positions_ok (vld_of_syn d)
+  | _ => true
+  end.
+
 Definition judge_composed (async : bool) (kind : string) (VS : Vld.Ast.schema) (F : Vld.Ast.features) (ES : ExeA.ArgData.schema)
            (bs : bytes) (opname : bytes) (raw : list (ExeA.ArgData.name * Val.Values.jval)) (W : ExeA.ArgData.outcome) (obs : seen) : sexp :=
   let m := pipeline_model VS F ES bs opname raw W in
@@ -120,16 +149,10 @@ Definition judge_composed (async : bool) (kind : string) (VS : Vld.Ast.schema) (
       | SeenExecuted o =>
           if (if async then agrees_async (ExeA.ArgModel.Done d errs) o else ExeA.ArgCheck.agrees (ExeA.ArgModel.Done d errs) o) then
             cls (List.app (if async then ["composed-async"] else [])
+                (List.app (if request_unevaluable ES bs opname raw then ["composed-directive-not-evaluable"] else [])
                    ((match d with Some _ => "composed-executed-data" | None => "composed-executed-null-data" end)
-                    :: (if has_errors o then ["composed-execution-errors"] else []) ++ ["nontrivial"]))
+                    :: (if has_errors o then ["composed-execution-errors"] else []) ++ ["nontrivial"])))
           else mism "composed-response"
-      | _ => mism "composed-class"
-      end
-  | PUnevaluable x =>
-      match obs with
-      | SeenExecuted o =>
-          if (if async then agrees_async x o else ExeA.ArgCheck.agrees x o) then cls ["composed-directive-not-evaluable"; "nontrivial"]
-          else mism "composed-response-unevaluable"
       | _ => mism "composed-class"
       end
   end.
@@ -248,6 +271,8 @@ Definition check_composed (l : list sexp) : sexp :=
             | Some F, Some VS, Some ES, Some raw, Some W, Some obs =>
                 if negb (ExeA.ArgHyps.type_names_okb ES && cost_schema_accepted ES) then v_bad "schema-hypotheses-do-not-hold"
                 else if negb (schemas_agree VS ES) then v_bad "schema-encodings-disagree"
+                else if negb (vschema_hypotheses VS) then v_bad "vschema-hypotheses-do-not-hold"
+                else if negb (parsed_positions_ok bs) then v_oracle_fail "stage-contract-broken:parser-positions-not-distinct" []
                 else
                   let v := judge_composed (match field1 "async" l with Some a => match as_bool a with Some b => b | None => false end | None => false end) kind VS F ES bs op raw W obs in
                   let v1 := match field "cost" l with
